@@ -9,10 +9,12 @@
 package main
 
 import (
+	"encoding/hex"
 	"encoding/json"
 	"fmt"
 	"math"
 	"math/big"
+	"os"
 	"sort"
 	"strconv"
 	"strings"
@@ -614,128 +616,364 @@ func lawCase(name string, v any, arg any) string {
 	return fmt.Sprintf("law=%s input=%s arg=%s", name, SexpVal(v), SexpVal(arg))
 }
 
-func runLaws(c *Ctx) {
-	r := c.Rng
-	nfail := 0
-	evals := 0
-	report := func(name string, v any, arg any, detail string) {
-		nfail++
-		if nfail <= 40 {
-			c.Violation("%s :: %s", lawCase(name, v, arg), detail)
+// parseSexpVal reads one value in the transport encoding (the inverse of hlib.SexpVal)
+func parseSexpVal(s string) (any, error) {
+	toks := strings.Fields(strings.NewReplacer("(", " ( ", ")", " ) ").Replace(s))
+	pos := 0
+	var parse func() (any, error)
+	unhex := func(t string) (string, error) {
+		if t == "-" {
+			return "", nil
 		}
+		b, err := hex.DecodeString(t)
+		return string(b), err
 	}
-	// law(name, query, input, vars...) : output must equal the input
-	ident := func(name, src string, v any) {
-		evals++
-		c.Count(name)
-		out := run1(compile(src), v)
-		if !deepEq(out, v) {
-			report(name, v, nil, "got "+SexpVal(out))
+	parse = func() (any, error) {
+		if pos >= len(toks) {
+			return nil, fmt.Errorf("unexpected end")
 		}
-		c.Emit("(law %s %s %s)", name, SexpVal(v), SexpVal(out))
-	}
-	truth := func(name, src string, v any, vars []string, vals ...any) {
-		evals++
-		c.Count(name)
-		out := run1(compile(src, vars...), v, vals...)
-		if out != true {
-			var arg any
-			if len(vals) > 0 {
-				arg = vals[0]
+		t := toks[pos]
+		pos++
+		switch t {
+		case "null":
+			return nil, nil
+		case "true":
+			return true, nil
+		case "false":
+			return false, nil
+		case "(":
+		default:
+			return nil, fmt.Errorf("unexpected token %q", t)
+		}
+		if pos >= len(toks) {
+			return nil, fmt.Errorf("unexpected end")
+		}
+		tag := toks[pos]
+		pos++
+		var out any
+		switch tag {
+		case "i", "b", "f", "l", "s":
+			if pos >= len(toks) {
+				return nil, fmt.Errorf("unexpected end")
 			}
-			report(name, v, arg, "got "+SexpVal(out))
+			a := toks[pos]
+			pos++
+			switch tag {
+			case "i", "b":
+				x, ok := new(big.Int).SetString(a, 10)
+				if !ok {
+					return nil, fmt.Errorf("bad integer %q", a)
+				}
+				if tag == "i" && x.IsInt64() {
+					out = int(x.Int64())
+				} else {
+					out = x
+				}
+			case "f":
+				u, err := strconv.ParseUint(a, 10, 64)
+				if err != nil {
+					return nil, err
+				}
+				out = math.Float64frombits(u)
+			case "l":
+				t, err := unhex(a)
+				if err != nil {
+					return nil, err
+				}
+				out = json.Number(t)
+			case "s":
+				t, err := unhex(a)
+				if err != nil {
+					return nil, err
+				}
+				out = t
+			}
+		case "a":
+			arr := []any{}
+			for pos < len(toks) && toks[pos] != ")" {
+				x, err := parse()
+				if err != nil {
+					return nil, err
+				}
+				arr = append(arr, x)
+			}
+			out = arr
+		case "o":
+			m := map[string]any{}
+			for pos < len(toks) && toks[pos] != ")" {
+				if toks[pos] != "(" || pos+1 >= len(toks) {
+					return nil, fmt.Errorf("bad object entry")
+				}
+				k, err := unhex(toks[pos+1])
+				if err != nil {
+					return nil, err
+				}
+				pos += 2
+				x, err := parse()
+				if err != nil {
+					return nil, err
+				}
+				if pos >= len(toks) || toks[pos] != ")" {
+					return nil, fmt.Errorf("bad object entry")
+				}
+				pos++
+				m[k] = x
+			}
+			out = m
+		default:
+			return nil, fmt.Errorf("unknown tag %q", tag)
 		}
+		if pos >= len(toks) || toks[pos] != ")" {
+			return nil, fmt.Errorf("missing )")
+		}
+		pos++
+		return out, nil
 	}
-	_ = truth
+	v, err := parse()
+	if err == nil && pos != len(toks) {
+		err = fmt.Errorf("trailing tokens")
+	}
+	return v, err
+}
 
-	vals := universe()
-	nrand := c.N
-	for i := 0; i < nrand; i++ {
-		vals = append(vals, randValue(r.Fork(), 5))
+type lawRunner struct {
+	c     *Ctx
+	r     *Rng
+	nfail int
+	evals int
+}
+
+func (l *lawRunner) report(name string, v any, arg any, detail string) {
+	l.nfail++
+	if l.nfail <= 40 {
+		l.c.Violation("%s :: %s", lawCase(name, v, arg), detail)
 	}
-	replacements := []any{nil, 7, "x", []any{}, map[string]any{"z": []any{1}}, false}
+}
+
+// ident: the query must return exactly its input
+func (l *lawRunner) ident(name, src string, v any) {
+	l.evals++
+	l.c.Count(name)
+	out := run1(compile(src), v)
+	if !deepEq(out, v) {
+		l.report(name, v, nil, "got "+rs(out))
+	}
+	l.c.Emit("(law %s %s)", strings.ReplaceAll(name, " ", "_"), SexpVal(v))
+}
+
+var lawReplacements = []any{nil, 7, "x", []any{}, map[string]any{"z": []any{1}}, false}
+
+func (l *lawRunner) value(v any) {
+	c, r := l.c, l.r
 	qGet, qSet := compile("getpath($p)", "$p"), compile("setpath($p; $x)", "$p", "$x")
 	qSetGet := compile("setpath($p; $x) | getpath($p)", "$p", "$x")
 	qSetId := compile("setpath($p; getpath($p))", "$p")
 	qPaths, qPathDD := compile("[paths]"), compile("[path(..)]")
 	qToS := compile("[tostream]")
 	qReplay := compile("reduce (tostream | select(length == 2)) as [$p, $x] (null; setpath($p; $x))")
+	l.ident("fromstream(tostream)", "fromstream(tostream)", v)
+	l.ident("tojson|fromjson", "tojson|fromjson", v)
+	if isObject(v) {
+		l.ident("to_entries|from_entries", "to_entries|from_entries", v)
+		l.ident("with_entries(.)", "with_entries(.)", v)
+	}
+	// [paths] == [path(..)] without the root; and both equal the paths computed here
+	l.evals++
+	c.Count("paths")
+	ps := run1(qPaths, v)
+	pdd := run1(qPathDD, v)
+	mine := pathsOf(v)
+	mineAny := make([]any, len(mine))
+	for i, p := range mine {
+		mineAny[i] = pathAny(p)
+	}
+	if a, ok := pdd.([]any); !ok || len(a) == 0 || !deepEq(a[0], []any{}) || !deepEq(ps, a[1:]) {
+		l.report("[paths]==[path(..)][1:]", v, nil, "paths="+rs(ps)+" path(..)="+rs(pdd))
+	} else if !deepEq(ps, mineAny) {
+		l.report("[paths]==structural paths", v, nil, "paths="+rs(ps))
+	}
+	// tostream events [p, leaf] satisfy getpath(p) == leaf
+	evs, _ := run1(qToS, v).([]any)
+	for _, e := range evs {
+		ev, ok := e.([]any)
+		if !ok || len(ev) == 0 || len(ev) > 2 {
+			l.report("tostream event shape", v, nil, rs(e))
+			continue
+		}
+		if len(ev) == 2 {
+			l.evals++
+			c.Count("tostream-leaf")
+			got := run1(qGet, v, ev[0])
+			if !deepEq(got, ev[1]) {
+				l.report("tostream leaf getpath", v, ev[0], "event leaf "+rs(ev[1])+" getpath "+rs(got))
+			}
+		}
+	}
+	// replaying the two-element events with setpath on null rebuilds the value
+	l.evals++
+	c.Count("replay")
+	if out := run1(qReplay, v); !deepEq(out, v) {
+		l.report("replay tostream leaves with setpath on null", v, nil, "got "+rs(out))
+	}
+	// setpath(p; getpath(p)) is the identity for every p in paths; setpath(p; x) | getpath(p) is x
+	cand := append([][]any{{}}, mine...)
+	nIn := len(cand)
+	for _, p := range append([][]any{{}}, mine...) {
+		if len(cand) > 120 {
+			break
+		}
+		for _, e := range []any{"zz", "", 0, 3, -1} {
+			cand = append(cand, append(pathAny(p), e))
+		}
+	}
+	for i, p := range cand {
+		pa := pathAny(p)
+		if i < nIn {
+			l.evals++
+			c.Count("setpath(p;getpath(p))")
+			if out := run1(qSetId, v, pa); !deepEq(out, v) {
+				l.report("setpath(p;getpath(p))", v, pa, "got "+rs(out))
+			}
+		}
+		x := lawReplacements[r.Intn(len(lawReplacements))]
+		set := run1(qSet, v, pa, x)
+		if _, isErr := set.(error); isErr {
+			continue // setpath undefined here (type error, negative index out of range): law not applicable
+		}
+		l.evals++
+		c.Count("setpath(p;x)|getpath(p)")
+		if out := run1(qSetGet, v, pa, x); !deepEq(out, x) {
+			l.report("setpath(p;x)|getpath(p)", v, []any{pa, x}, "got "+rs(out))
+		}
+	}
+}
+
+func (l *lawRunner) str(s string, extraSeps []string) {
+	c, r := l.c, l.r
+	l.ident("@base64|@base64d", "@base64|@base64d", s)
+	l.ident("@uri|@urid", "@uri|@urid", s)
+	if utf8.ValidString(s) {
+		l.ident("explode|implode", "explode|implode", s)
+		l.ident("tojson|fromjson", "tojson|fromjson", s)
+	}
+	// split(s)|join(s) for non-empty separators: substrings of the subject and fixed ones
+	seps := append([]string{"a", ",", "é", "ab", "\n", "%", "="}, extraSeps...)
+	if len(s) > 0 {
+		i := r.Intn(len(s))
+		j := i + 1 + r.Intn(len(s)-i)
+		seps = append(seps, s[i:j], s[:1], s[len(s)-1:])
+	}
+	for _, sep := range seps {
+		if sep == "" {
+			continue
+		}
+		l.evals++
+		c.Count("split(s)|join(s)")
+		out := run1(compile("split($s)|join($s)", "$s"), s, sep)
+		if !deepEq(out, s) {
+			l.report("split(s)|join(s)", s, sep, "got "+rs(out))
+		}
+	}
+}
+
+func (l *lawRunner) num(n any) {
+	if f, ok := n.(float64); ok && (math.IsNaN(f) || math.IsInf(f, 0)) {
+		return
+	}
+	if b, ok := n.(*big.Int); ok && b.IsInt64() {
+		n = int(b.Int64())
+	}
+	l.ident("tostring|tonumber", "tostring|tonumber", n)
+	l.ident("tojson|fromjson", "tojson|fromjson", n)
+}
+
+func (l *lawRunner) seconds(t int) {
+	if t < year1 || t > year9999end {
+		return
+	}
+	l.ident("gmtime|mktime", "gmtime|mktime", t)
+	l.ident("todate|fromdate", "todate|fromdate", t)
+	if t != year1 { // the float spelling of the first second of year 1 would only repeat the int case
+		l.ident("gmtime|mktime", "gmtime|mktime", float64(t))
+		l.ident("todate|fromdate", "todate|fromdate", float64(t))
+	}
+}
+
+func runLaws(c *Ctx) {
+	l := &lawRunner{c: c, r: c.Rng}
+	r := c.Rng
+	defer func() {
+		c.Stats["law_evaluations"] = l.evals
+		c.Stats["law_failures"] = l.nfail
+	}()
+	// candidate mode: evaluate every applicable law on the values listed in a file (one per line)
+	for _, a := range c.Args {
+		if path, ok := strings.CutPrefix(a, "cands="); ok {
+			data, err := os.ReadFile(path)
+			if err != nil {
+				panic(err)
+			}
+			var vals []any
+			var strs []string
+			for _, line := range strings.Split(string(data), "\n") {
+				if strings.TrimSpace(line) == "" {
+					continue
+				}
+				v, err := parseSexpVal(line)
+				if err != nil {
+					continue
+				}
+				vals = append(vals, v)
+				if s, ok := v.(string); ok {
+					strs = append(strs, s)
+				}
+				// strings and numbers nested one level down (implode / join / mktime arguments)
+				if arr, ok := v.([]any); ok {
+					for _, x := range arr {
+						if s, ok := x.(string); ok {
+							strs = append(strs, s)
+						}
+					}
+				}
+			}
+			if len(strs) > 60 {
+				strs = strs[:60]
+			}
+			for _, v := range vals {
+				l.value(v)
+				switch x := v.(type) {
+				case string:
+					l.str(x, strs)
+				case int:
+					l.num(x)
+					l.seconds(x)
+				case float64:
+					l.num(x)
+					if x == math.Trunc(x) && math.Abs(x) < 1e15 {
+						l.seconds(int(x))
+					}
+				case *big.Int, json.Number:
+					l.num(x)
+				case []any:
+					// an exploded string / a broken-down time
+					if s, ok := run1(compile("implode"), x).(string); ok {
+						l.str(s, nil)
+					}
+					if t, ok := run1(compile("mktime"), x).(float64); ok && t == math.Trunc(t) && math.Abs(t) < 1e15 {
+						l.seconds(int(t))
+					}
+				}
+			}
+			return
+		}
+	}
+	vals := universe()
+	nrand := c.N
+	for i := 0; i < nrand; i++ {
+		vals = append(vals, randValue(r.Fork(), 5))
+	}
 	for _, v := range vals {
-		ident("fromstream(tostream)", "fromstream(tostream)", v)
-		ident("tojson|fromjson", "tojson|fromjson", v)
-		if isObject(v) {
-			ident("to_entries|from_entries", "to_entries|from_entries", v)
-			ident("with_entries(.)", "with_entries(.)", v)
-		}
-		// [paths] == [path(..)] without the root; and both equal the paths computed here
-		evals++
-		c.Count("paths")
-		ps := run1(qPaths, v)
-		pdd := run1(qPathDD, v)
-		mine := pathsOf(v)
-		mineAny := make([]any, len(mine))
-		for i, p := range mine {
-			mineAny[i] = pathAny(p)
-		}
-		if a, ok := pdd.([]any); !ok || len(a) == 0 || !deepEq(a[0], []any{}) || !deepEq(ps, a[1:]) {
-			report("[paths]==[path(..)][1:]", v, nil, "paths="+SexpVal(ps)+" path(..)="+SexpVal(pdd))
-		} else if !deepEq(ps, mineAny) {
-			report("[paths]==structural paths", v, nil, "paths="+SexpVal(ps))
-		}
-		// tostream events [p, leaf] satisfy getpath(p) == leaf
-		evs, _ := run1(qToS, v).([]any)
-		for _, e := range evs {
-			ev, ok := e.([]any)
-			if !ok || len(ev) == 0 || len(ev) > 2 {
-				report("tostream event shape", v, nil, SexpVal(e))
-				continue
-			}
-			if len(ev) == 2 {
-				evals++
-				c.Count("tostream-leaf")
-				got := run1(qGet, v, ev[0])
-				if !deepEq(got, ev[1]) {
-					report("tostream leaf getpath", v, ev[0], "event leaf "+SexpVal(ev[1])+" getpath "+SexpVal(got))
-				}
-			}
-		}
-		// replaying the two-element events with setpath on null rebuilds the value
-		evals++
-		c.Count("replay")
-		if out := run1(qReplay, v); !deepEq(out, v) {
-			report("replay tostream leaves with setpath on null", v, nil, "got "+SexpVal(out))
-		}
-		// setpath(p; getpath(p)) is the identity for every p in paths; setpath(p; x) | getpath(p) is x
-		cand := append([][]any{{}}, mine...)
-		nIn := len(cand)
-		for _, p := range append([][]any{{}}, mine...) {
-			if len(cand) > 120 {
-				break
-			}
-			for _, e := range []any{"zz", "", 0, 3, -1} {
-				cand = append(cand, append(pathAny(p), e))
-			}
-		}
-		for i, p := range cand {
-			pa := pathAny(p)
-			if i < nIn {
-				evals++
-				c.Count("setpath(p;getpath(p))")
-				if out := run1(qSetId, v, pa); !deepEq(out, v) {
-					report("setpath(p;getpath(p))", v, pa, "got "+SexpVal(out))
-				}
-			}
-			x := replacements[r.Intn(len(replacements))]
-			set := run1(qSet, v, pa, x)
-			if _, isErr := set.(error); isErr {
-				continue // setpath undefined here (type error, negative index out of range): law not applicable
-			}
-			evals++
-			c.Count("setpath(p;x)|getpath(p)")
-			if out := run1(qSetGet, v, pa, x); !deepEq(out, x) {
-				report("setpath(p;x)|getpath(p)", v, []any{pa, x}, "got "+SexpVal(out))
-			}
-		}
+		l.value(v)
 	}
 	// strings
 	var strs []string
@@ -763,30 +1001,7 @@ func runLaws(c *Ctx) {
 		}
 	}
 	for _, s := range strs {
-		ident("@base64|@base64d", "@base64|@base64d", s)
-		ident("@uri|@urid", "@uri|@urid", s)
-		if utf8.ValidString(s) {
-			ident("explode|implode", "explode|implode", s)
-			ident("tojson|fromjson", "tojson|fromjson", s)
-		}
-		// split(s)|join(s) for non-empty separators: substrings of the subject and fixed ones
-		seps := []string{"a", ",", "é", "ab", "\n", "%", "="}
-		if len(s) > 0 {
-			i := r.Intn(len(s))
-			j := i + 1 + r.Intn(len(s)-i)
-			seps = append(seps, s[i:j], s[:1], s[len(s)-1:])
-		}
-		for _, sep := range seps {
-			if sep == "" {
-				continue
-			}
-			evals++
-			c.Count("split(s)|join(s)")
-			out := run1(compile("split($s)|join($s)", "$s"), s, sep)
-			if !deepEq(out, s) {
-				report("split(s)|join(s)", s, sep, "got "+SexpVal(out))
-			}
-		}
+		l.str(s, nil)
 	}
 	// finite numbers
 	nums := []any{0, 1, -1, 42, math.MaxInt64, math.MinInt64, 1 << 53, 1<<53 + 1, -(1<<53 + 1), 0.5, -0.5, 1e17, 1e19, -1e19, 1e21, 1e22, 1e23,
@@ -800,24 +1015,10 @@ func runLaws(c *Ctx) {
 		nums = append(nums, math.Float64frombits(r.Next()), int(int64(r.Next())), float64(int64(r.Next()))/1024)
 	}
 	for _, n := range nums {
-		if f, ok := n.(float64); ok && (math.IsNaN(f) || math.IsInf(f, 0)) {
-			continue
-		}
-		if b, ok := n.(*big.Int); ok && b.IsInt64() {
-			n = int(b.Int64())
-		}
-		ident("tostring|tonumber", "tostring|tonumber", n)
-		ident("tojson|fromjson", "tojson|fromjson", n)
+		l.num(n)
 	}
 	// whole seconds within years 1..9999
 	for _, t := range secondsCases(r, nrand) {
-		ident("gmtime|mktime", "gmtime|mktime", t)
-		ident("todate|fromdate", "todate|fromdate", t)
-		if t != year1 { // the float spelling of the first second of year 1 would only repeat the int case
-			ident("gmtime|mktime", "gmtime|mktime", float64(t))
-			ident("todate|fromdate", "todate|fromdate", float64(t))
-		}
+		l.seconds(t)
 	}
-	c.Stats["law_evaluations"] = evals
-	c.Stats["law_failures"] = nfail
 }
